@@ -340,7 +340,9 @@ def for_to_index_loop(ctx, fw, unit, loopnode, seq, ivar, enumerate_=None, zip_w
     bs = loopnode["body_span"][0]
     fw.replace(fs, bs, "{ let mut %s: usize = 0;\n while %s " % (ivar, cond), "W6-R-idx", header=hdr)
     fw.insert(bs + 1, "\n let %s = %s; %s = %s + 1;\n" % (pat, elem, ivar, ivar), rule="W6-R-idx")
-    fw.insert(loopnode["span"][1], " }", rule="W6-R-idx")
+    # the closing brace of the wrapper block goes just before the loop's own `}` (which then closes the
+    # wrapper), after every other insertion at that position, so that it travels with moved statement ranges
+    fw.insert(loopnode["span"][1] - 1, "} ", rule="W6-R-idx", prio=9)
     pos = bs
     fw.insert(pos, "\n        invariant\n            %s <= %s.len(),\n" % (ivar, seq) + ("            %s <= %s.len(),\n" % (ivar, zip_with) if zip_with else ""), rule="W6-R-idx")
     loopnode["_ridx"] = {"ivar": ivar, "seq": seq, "zip": zip_with}
@@ -599,3 +601,37 @@ def str_parse(fw, call_node, target_fn):
         raise WeaveError("R-parse: not a .parse() call")
     recv = " ".join(fw.text(call_node["receiver_span"]).split())
     fw.replace(call_node["span"][0], call_node["span"][1], "%s(%s.as_str())" % (target_fn, recv), "W9-R-parse")
+
+
+def loop_by_header(fw, fnnode, needle, nth=1):
+    """the nth loop of fnnode whose header (iterated expression) contains `needle` (whitespace-insensitive)"""
+    nd = needle.replace(" ", "")
+    ls = [l for l in fw.loops(fnnode) if l["kind"] == "for" and nd in fw.text(l["expr_span"]).replace(" ", "").replace("\n", "")]
+    if len(ls) < nth:
+        raise WeaveError("%s: loop over `%s` #%d of `%s` not found" % (fw.rel, needle, nth, fw.fn_qualname(fnnode)))
+    return ls[nth - 1] if nth > 0 else ls[nth]
+
+
+def replace_call(fw, call_node, new_prefix, keep_args_of=None, rule="W9-R-std"):
+    """replace `F(ARGS)` by `new_prefix ARGS_TEXT )` where ARGS_TEXT is supplied by the caller"""
+    raise NotImplementedError
+
+
+def let_type(fw, letnode, ty):
+    """W7: give an un-annotated `let` an explicit type (what rustc infers anyway; checked by rustc)"""
+    if letnode["typed"]:
+        return
+    fw.insert(letnode["pat_span"][1], ": " + ty, rule="W7-let-type")
+
+
+def string_cmp_literal(fw, fnnode, within_span):
+    """R-streq: `E == "lit"` / `E != "lit"` with `E: String` -> `E.as_str() == "lit"` (std defines
+    `impl PartialEq<&str> for String` as comparison of the string slices; Verus specifies `==` on `&str`)"""
+    n = 0
+    for b in fw.in_fn(fnnode, ("binary",)):
+        if b["op"] in ("==", "!=") and within_span[0] <= b["span"][0] and b["span"][1] <= within_span[1] \
+                and fw.text(b["right_span"]).lstrip().startswith('"') and not fw.text(b["left_span"]).rstrip().endswith(")"):
+            fw.insert(b["left_span"][1], ".as_str()", rule="W9-R-streq")
+            n += 1
+    if n == 0:
+        raise WeaveError("%s: R-streq: no `E == \"lit\"` comparison in the given statement" % fw.rel)
